@@ -34,6 +34,7 @@ type srvOpt struct {
 	ResetOnWrite bool // after the server closed, the client's next write fails (RST) instead of vanishing
 	BadLen      bool // may send a frame whose header announces more bytes than ever arrive
 	Delay       time.Duration // the server thinks this long before every action (slow server)
+	SplitStall  time.Duration // TCP: every answer but the first of a connection arrives in two segments with this pause between them (a stall inside a frame)
 	DropFirst   int           // the first n queries arriving on every connection are lost (UDP loss): only a resend gets an answer
 }
 
@@ -324,7 +325,21 @@ func (s *tsys) serve(cn *tConn) {
 			s.nonce++
 			ans := fk.Answer(w.wire, s.nonce)
 			rec := &answerRec{forQuery: w.wire, payload: ans}
-			rec.recID = s.deliver(cn, ans)
+			if so.SplitStall > 0 && s.tcp && len(cn.answers) > 0 {
+				// the bytes after the pause, taken alone, look like a frame addressed to the
+				// same outstanding query (trailing bytes inside the message): a reader that
+				// resumes in the middle of the frame after a timeout delivers them
+				tail := append([]byte{0, 16, w.wire[0], w.wire[1]}, []byte("AAAAAAAAAAAAAA")...)
+				k := 2 + len(ans)
+				ans = append(ans, tail...)
+				rec.payload = ans
+				fr := fk.Frame(ans)
+				cn.a.Deliver(append([]byte(nil), fr[:k]...))
+				vs.Sleep(so.SplitStall)
+				rec.recID = cn.a.Deliver(append([]byte(nil), fr[k:]...))
+			} else {
+				rec.recID = s.deliver(cn, ans)
+			}
 			cn.answers = append(cn.answers, rec)
 			w.answered++
 			if a.kind == "answer+close" {
